@@ -43,11 +43,11 @@ Theorem C02_inv : forall s, reachable s ->
   wf_words (hm_words m) /\
   (forall sid, used (hm_words m) sid = true <-> In sid (sids p)) /\
   (forall sid, In sid (sids p) <->
-     ((exists h, aget sid (hm_handlers m) = Some h) \/ smem sid (hm_orphans m) = true)) /\
-  (forall sid h, aget sid (hm_handlers m) = Some h -> smem sid (hm_orphans m) = false) /\
-  (forall sid rid tok, aget sid (hm_handlers m) = Some (rid, tok) ->
-     tok = rid /\ aget rid (hm_r2s m) = Some sid /\ In (sid, rid) p) /\
-  (forall rid sid, aget rid (hm_r2s m) = Some sid -> aget sid (hm_handlers m) = Some (rid, rid)) /\
+     ((exists h, mget sid (hm_handlers m) = Some h) \/ smem sid (hm_orphans m) = true)) /\
+  (forall sid h, mget sid (hm_handlers m) = Some h -> smem sid (hm_orphans m) = false) /\
+  (forall sid rid tok, mget sid (hm_handlers m) = Some (rid, tok) ->
+     tok = rid /\ mget rid (hm_r2s m) = Some sid /\ In (sid, rid) p) /\
+  (forall rid sid, mget rid (hm_r2s m) = Some sid -> mget sid (hm_handlers m) = Some (rid, rid)) /\
   NoDup (sids p) /\ NoDup (rids p ++ c_queue s) /\
   (forall rid, In rid (rids p ++ c_queue s) -> rid < c_next_rid s).
 Proof. exact inv_statement. Qed.
@@ -113,7 +113,36 @@ Theorem C02_no_spurious_break : forall s l s', reachable s -> step s l = Some s'
   c_broken s' = true -> l = Break \/ c_broken s = true.
 Proof. exact no_spurious_break. Qed.
 
+(* the branch kept apart from the well-behaved peer: a frame on an id that is not pending reaches
+   nobody — lookup answers Missing (the reader then fails with UnexpectedStreamId) and handlers,
+   request ids and orphanage are untouched *)
+Theorem C02_unsolicited : forall s sid, reachable s -> ~ In sid (sids (pending s)) ->
+  snd (hm_lookup (c_hm s) sid) = LMissing /\
+  hm_handlers (fst (hm_lookup (c_hm s) sid)) = hm_handlers (c_hm s) /\
+  hm_r2s (fst (hm_lookup (c_hm s) sid)) = hm_r2s (c_hm s) /\
+  hm_orphans (fst (hm_lookup (c_hm s) sid)) = hm_orphans (c_hm s).
+Proof. exact unsolicited. Qed.
+
+(* ---- the handler map alone, for EVERY operation sequence (stale, late, never-allocated ids) ----
+   [sm_check] is the property written as a checker over an observed sequence (Model/Streams.v):
+   no id handed out while outstanding, allocation fails only with 32768 outstanding, a lookup
+   yields exactly the handler allocated with that id / orphaned / missing.  The model passes it
+   for all sequences without duplicated request ids; the tie uses the same checker on the
+   implementation's results to tell a violation from a mere difference. *)
+Theorem C02_sm_spec : forall ops, sm_applicable ops = true -> Forall op_in_range ops ->
+  sm_check ops (snd (hm_run hm_new ops)) = true.
+Proof. exact sm_spec. Qed.
+
 (* ---- non-vacuity: concrete schedules and states ---- *)
+Example C02_ex_check_rejects :
+  sm_check [OpAlloc 1 10; OpAlloc 2 11] [RAlloc (AllocOk 0) 10; RAlloc (AllocOk 0) 11] = false /\
+  sm_check [OpAlloc 1 10; OpAlloc 2 11; OpLookup 1]
+           [RAlloc (AllocOk 0) 10; RAlloc (AllocOk 1) 11; RLookup (LHandler 1 10)] = false /\
+  sm_check [OpAlloc 1 10; OpOrphan 1; OpLookup 0]
+           [RAlloc (AllocOk 0) 10; RUnit; RLookup (LHandler 1 10)] = false /\
+  sm_check [OpAlloc 1 10] [RAlloc AllocFull 10] = false.
+Proof. exact sm_check_rejects. Qed.
+
 Definition C02_sched : list label :=
   [Submit; Submit; Submit; WriterTake; WriterTake; Cancel 0; OrphanerTake; WriterTake;
    PeerRecv; PeerRecv; PeerRecv; PeerAnswer 1; ReaderDeliver; PeerAnswer 0; ReaderDeliver;
@@ -124,16 +153,16 @@ Definition C02_sched : list label :=
    order; request 3 is cancelled after its response was delivered: the notice is a no-op *)
 Example C02_ex_run :
   option_map (fun s => (c_writing s, c_owed s, c_inflight s, c_mailbox s, c_completed s,
-                        hm_handlers (c_hm s), hm_orphans (c_hm s), c_broken s))
+                        melements (hm_handlers (c_hm s)), hm_orphans (c_hm s), c_broken s))
              (run conn_init C02_sched)
   = Some ([], [(2, 2)], [], [(3, Resp 3); (1, Resp 1)], [(1, Resp 1)], [(2, (2, 2))], [], false).
 Proof. vm_compute. reflexivity. Qed.
 
 Example C02_ex_orphan_keeps_id :
-  option_map (fun s => (c_writing s, hm_orphans (c_hm s), hm_handlers (c_hm s)))
+  option_map (fun s => (c_writing s, hm_orphans (c_hm s), melements (hm_handlers (c_hm s))))
     (run conn_init [Submit; Submit; Submit; WriterTake; WriterTake; Cancel 0; OrphanerTake;
                     WriterTake])
-  = Some ([(0, 0); (1, 1); (2, 2)], [0], [(2, (2, 2)); (1, (1, 1))]).
+  = Some ([(0, 0); (1, 1); (2, 2)], [0], [(1, (1, 1)); (2, (2, 2))]).
 Proof. vm_compute. reflexivity. Qed.
 
 Example C02_ex_bitmap :
@@ -166,3 +195,5 @@ Print Assumptions C02_late_orphan.
 Print Assumptions C02_exhaustion.
 Print Assumptions C02_exhaustion_reachable.
 Print Assumptions C02_no_spurious_break.
+Print Assumptions C02_unsolicited.
+Print Assumptions C02_sm_spec.
